@@ -167,6 +167,20 @@ func main() {
 		}
 	}
 	eng.C = C
+	for _, d := range C.Decls {
+		switch d.Kind {
+		case "fnconst":
+			C.constID[d.Name] = eng.fnID(d.SX.List[2].Atom)
+		case "typeconst":
+			n := d.SX.List[2].Atom
+			id, ok := eng.typeIDs[n]
+			if !ok {
+				id = 1 + len(eng.typeIDs)
+				eng.typeIDs[n] = id
+			}
+			C.constID[d.Name] = fmt.Sprint(id)
+		}
+	}
 	prop := *flagProp
 
 	// select functions
